@@ -461,7 +461,7 @@ class NetlistMixin(object):
 
         subsets = {}
         while aset != set():
-            name = aset.pop()
+            name = min(aset)
             cpt = self._elements[name]
             aset.add(name)
 
